@@ -932,6 +932,8 @@ mkincdecexpr(enum tokenkind op, struct expr *base, bool post)
 		error(&tok.loc, "operand of '%s' operator must be an lvalue", tokstr[op]);
 	if (base->qual & QUALCONST)
 		error(&tok.loc, "operand of '%s' operator is const qualified", tokstr[op]);
+	if (!(base->type->prop & PROPSCALAR))
+		error(&tok.loc, "operand of '%s' operator must have scalar type", tokstr[op]);
 	e = mkexpr(EXPRINCDEC, base->type, base);
 	e->qual = base->qual;
 	e->op = op;
